@@ -372,32 +372,19 @@ class InverseMatcher(WrappingMatcher):
         child = self.child
         missing = self.missing
 
-        # If the current docnum isn't missing and the child matcher is
-        # exhausted (so we don't have to worry about skipping its matches), we
-        # don't have to do anything
-        if not child.is_active() and not missing(self._id):
-            return
-
-        # Skip missing documents
-        while self._id < self.limit and missing(self._id):
-            self._id += 1
-
-        # Catch the child matcher up to where this matcher is
-        if child.is_active() and child.id() < self._id:
-            child.skip_to(self._id)
-
-        # While self._id is missing or is in the child matcher, increase it
-        while child.is_active() and self._id < self.limit:
+        # Move self._id forward until it is on a document that is neither
+        # missing nor in the child matcher
+        while self._id < self.limit:
             if missing(self._id):
                 self._id += 1
-                continue
-
-            if self._id == child.id():
+            elif child.is_active() and child.id() < self._id:
+                # Catch the child matcher up to where this matcher is
+                child.skip_to(self._id)
+            elif child.is_active() and child.id() == self._id:
                 self._id += 1
                 child.next()
-                continue
-
-            break
+            else:
+                break
 
     def id(self):
         return self._id
